@@ -117,7 +117,7 @@ def block_unit(mode, bg_known, pixels=False):
     @unit(prop, f"block:BlockImage._render_image[{mode},bg={'known' if bg_known else 'unknown'}]" + ("/pixels" if pixels else ""))
     def u(ctx, mode=mode, bg_known=bg_known):
         eng = ctx.engine(f"{prop}/block._render_image[{mode},bg={'known' if bg_known else 'unknown'}]", prop)
-        eng.default_replay = "C02.render" if pixels else "C01.render"
+        eng.default_replay = "C02.render" if pixels else "C01.render_block"
         st = State()
         W, H, r0, TW, TH, B0 = z3.Ints("W H r0 TW TH bottom0")
         st.pc += [W >= 1, H >= 1, TW >= W, TH >= H, r0 >= 0, B0 >= r0 + H - 1, B0 - TH + 1 <= r0] + px_range_axioms()
